@@ -35,6 +35,8 @@ PROP = dict(
         workloads=[
             dict(name="control-matrix", go_test="TestC14", runner="C14",
                  env=dict(quick=dict(VERIF_ALLMASKS=0), thorough=dict(VERIF_ALLMASKS=1))),
+            dict(name="liquidation-auction-controls", go_test="TestC14X", runner="C14X",
+                 env=dict(quick=dict(VERIF_ALLMASKS=0, VERIF_AMOUNT_SAMPLE=2), thorough=dict(VERIF_ALLMASKS=1, VERIF_AMOUNT_SAMPLE2=3))),
         ],
         search_env=_search_env, search_rounds=1,   # the matrix is deterministic: one directed round (focused on the broken rows, or the full boundary matrix)
         rule="case = one message on its own store branch of the prepared state (one position of every kind): every method of the vault / locker / lend / liquidity / auctionsV2 msg servers, "
@@ -45,18 +47,26 @@ PROP = dict(
              "(for the handlers of the broken rows, VERIF_FOCUS, or all). Reference of every (message, amount): the uncontrolled all-active run - its class, its resulting state, the oracle prices it READS "
              "(SDK store tracer on the market store) and, where a run succeeds with such a feed inactive, whether the reference outcome depends on the feed's value (x1000, /1000 probes); plus V2 Liquidate, V1 LiquidateVaults / LiquidateBorrows and "
              "auction.BeginBlocker after a collateral price fall x breaker {off,on}. non-trivial = some control set and the uncontrolled run of the same message succeeds, or a sweep that started something / ran under the breaker; "
-             "distinct by (handler, breaker, esm, mask)",
+             "distinct by (handler, breaker, esm, mask). "
+             "Workload liquidation-auction-controls (TestC14X): the same matrix (default amount x breaker x ESM phase x every price subset; every amount field x boundary amounts of the state - also those of the running "
+             "auctions, locked vaults, reserve funds, shutdown deposit - x controls x each single price the run reads; quick tier: a seed-chosen half of the boundary amounts; thorough tier: every control state x every price subset for a seed-chosen third of them, all of them in a directed search) over every msgServer method of the "
+             "liquidation / auction / liquidationsV2 / auctionsV2 / esm / rewards / collector / tokenmint modules (GuardsCheck.x_matrix_handlers, from the regenerated registry) on the extended state of TestC12X "
+             "(unhealthy positions, running auctions of both generations; the redemption on the executed-shutdown state); a liquidate message that succeeds under the breaker is a predicate failure; the runner "
+             "demands that every such method was run where its uncontrolled run succeeds, under the breaker, with inactive prices and with boundary amounts",
         modelled=["baseapp per-message atomicity (Lib/Atomic.v)", "handlers as guard lists (top-level structure; translator trusted, cross-checked by the matrix)",
                   "ESM execution is modelled by writing the ESMStatus record + price snapshots the ESM end-blocker would write",
                   "price feeds are env inputs (Twa records written directly)"],
         assumptions=["breaker scope as in DESIGN.md: locker withdraw/close and lend repay/close are outside the listed scope (recorded in Model/GuardsCheck.v)",
-                     "liquidation.MsgLiquidateBorrow and auction.MsgPlaceDutchLendBid are excluded from the price theorem (price errors assigned to _ on their paths; not reproduced dynamically)",
+                     "liquidation.MsgLiquidateBorrow and auction.MsgPlaceDutchLendBid are excluded from the price THEOREM (price errors assigned to _ on their paths); both are in the dynamic matrix, with same-pool and cross-pool (bridged asset) borrows: "
+                     "the dropped errors of the health checks were reproduced (C14-F2, fixed); what remains discarded (CalcAssetPrice in liquidation.UpdateLockedBorrows and lend.CreteNewBorrow) is reached only after a checked lookup of the same feeds in the same message",
+                     "breaker scope of the liquidation / auction / esm modules as reviewed in GuardsCheck.liquidation_msg_scope / x_breaker_out_of_scope: the liquidate messages must refuse; bids on running auctions, limit bids, "
+                     "reserve funding, the external-keeper liquidation (collateral brought by an outside application; the code does not read the breaker) and the shutdown messages are not named by the property",
                      "'needed price' is observed, not derived: a feed the all-active run of the same message reads (SDK store trace) and whose value changes that run's outcome when scaled x1000 or /1000"],
     )
 
 MANIFEST = dict(
-    level_text="Finite-matrix proof over tables REGENERATED from the Go source on every run: every handler in the breaker scope has the breaker check before any write, every vault handler that can reach MintCoins has the ESM check before any write, vault withdraw has the cool-off check before any write, all seven sweep / auction-start functions are gated by the breaker and write nothing before reading it, every price call site reachable from a handler (and every link to it; a raw GetTwa read that discards the found flag counts as a site that ignores the error) propagates the error - each lifted by a generic lemma to 'for every store the handler returns the error on the untouched store'. Cross-checked by running every handler x breaker x ESM phase x every inactive-price subset, and every amount field x every boundary amount of the state (the amounts that select early-return branches) x controls, and the sweeps on the real code; exact error class compared with the model's prediction; an operation must fail when a feed it reads and depends on is inactive, and an inactive feed never turns a refusal into a success.",
+    level_text="Finite-matrix proof over tables REGENERATED from the Go source on every run: every handler in the breaker scope has the breaker check before any write, every vault handler that can reach MintCoins has the ESM check before any write, vault withdraw has the cool-off check before any write, all seven sweep / auction-start functions are gated by the breaker and write nothing before reading it, the liquidate messages of both generations refuse under the breaker (generation 1: check before any write in the handler's row; generation 2: dispatch to the gated per-position sweep functions), every price call site reachable from a handler (and every link to it; a raw GetTwa read that discards the found flag counts as a site that ignores the error) propagates the error - each lifted by a generic lemma to 'for every store the handler returns the error on the untouched store'. Cross-checked by running every handler x breaker x ESM phase x every inactive-price subset, and every amount field x every boundary amount of the state (the amounts that select early-return branches) x controls, and the sweeps on the real code, and the same matrix over the liquidation / auction / shutdown / reward messages on a state with unhealthy positions and running auctions of both generations; exact error class compared with the model's prediction; an operation must fail when a feed it reads and depends on is inactive, and an inactive feed never turns a refusal into a success.",
     design_ref="DESIGN.md section 4 C14",
-    level_note="Trusted: Coq kernel, translator (fails closed on unrecognised shapes), extraction, OCaml runner, Go harness. Price clause is _partial: two handlers excluded (price error ignored on their paths, read in the code, not reproduced). No axioms.",
+    level_note="Trusted: Coq kernel, translator (fails closed on unrecognised shapes), extraction, OCaml runner, Go harness. Price clause is _partial: two handlers are excluded from the theorem (price errors discarded on their paths); both are in the dynamic matrix and the discarded errors that changed an outcome were reproduced and repaired (C14-F2). The liquidate-message breaker theorem is _partial for generation 2 (opaque row + reviewed dispatch list, cross-checked dynamically). No axioms.",
     technique="Coq proof by computation over regenerated tables + generic guard-list lemmas + control matrix run against the real msg servers and block hooks",
 )
